@@ -49,6 +49,16 @@ fn lazy_programs(quick: bool) -> Vec<(Program, Option<usize>, Vec<i64>)> {
         Br { g: G::Fresh(vec![2], vec![G::Dfs(vec![G::Rel(Rel::Append, vec![T::V(2), T::list(vec![T::I(1)]), T::V(2)]), eq(8)])]), n: Some(0), vals: vec![], diverges: true },
         Br { g: G::Fresh(vec![2], vec![G::Dfs(vec![G::Conj(vec![G::Rel(Rel::Member, vec![T::I(1), T::V(2)]), G::Eq(T::V(2), T::Nil)]), eq(8)])]), n: Some(0), vals: vec![], diverges: true },
         Br { g: G::Fresh(vec![2], vec![G::Dfs(vec![G::Rel(Rel::Member, vec![T::I(1), T::V(2)]), eq(9)])]), n: None, vals: vec![9], diverges: true },
+        // committed choice over a head that never answers: its solve runs the head to its first
+        // answer inside one engine step, so taking exactly the answers that exist must not
+        // touch it (answers delivered with different numbers of steps before them, so that the
+        // step after the n-th answer falls on the start of such a goal in some combination)
+        Br { g: G::Onceo(vec![G::Anyo(vec![G::Fail])]), n: Some(0), vals: vec![], diverges: true },
+        Br { g: G::Conj(vec![G::Succeed, G::Onceo(vec![G::Anyo(vec![G::Fail])])]), n: Some(0), vals: vec![], diverges: true },
+        Br { g: G::Fresh(vec![2], vec![G::Onceo(vec![G::Rel(Rel::Append, vec![T::V(2), T::list(vec![T::I(0)]), T::V(2)])])]), n: Some(0), vals: vec![], diverges: true },
+        Br { g: G::Conda(vec![vec![G::Anyo(vec![G::Fail])], vec![G::Succeed]]), n: Some(0), vals: vec![], diverges: true },
+        Br { g: G::Rel(Rel::Append, vec![T::Nil, T::list(vec![q.clone()]), T::list(vec![T::I(1)])]), n: Some(1), vals: vec![1], diverges: false },
+        Br { g: G::Closure(Box::new(G::Closure(Box::new(eq(1))))), n: Some(1), vals: vec![1], diverges: false },
     ];
     let mut out = vec![];
     let ks: Vec<usize> = if quick { vec![1, 2] } else { vec![1, 2, 3] };
@@ -113,7 +123,7 @@ fn check_lazy(p: &Program, total: Option<usize>, vals: &[i64], index: usize) -> 
     // a finite program must end, with exactly `total` answers, and stay ended (fused is checked
     // inside run_query: three more next() calls after the first None)
     if let Some(n) = total {
-        let diverging_search = p.to_string().contains("loop") || p.to_string().contains("dfs");
+        let diverging_search = p.to_string().contains("loop") || p.to_string().contains("dfs") || p.to_string().contains("onceo") || p.to_string().contains("conda");
         if !diverging_search {
             let all = run_query(nvars, p, 1000, 200_000);
             match &all.end {
